@@ -26,7 +26,10 @@ import (
 	"path/filepath"
 	"strconv"
 	"strings"
+	"sync"
 	"testing"
+	"testing/synctest"
+	"time"
 
 	"github.com/bfenetworks/bfe/bfe_basic"
 	"github.com/bfenetworks/bfe/bfe_bufio"
@@ -609,6 +612,9 @@ func c27srcClass(c c27case) string {
 	if c.Srv == "M" {
 		return "module-" + c.Frame
 	}
+	if c.Srv == "F" || c.Srv == "S" {
+		return "flushloop-" + c.Frame
+	}
 	return "backend-" + c.Frame
 }
 
@@ -740,7 +746,7 @@ func c27judge(c c27case, exp c27expect, o c27obs) (sig, detail, outcome string) 
 
 // ---- servers -------------------------------------------------------------------------------------------
 
-func c27serverFlush0(dir string) *BfeServer {
+func c27serverFlush(dir string, ms int) *BfeServer {
 	srv := h1newServer(dir, h1defaultSpec())
 	p := filepath.Join(dir, "cluster_conf.data")
 	b, err := os.ReadFile(p)
@@ -752,7 +758,7 @@ func c27serverFlush0(dir string) *BfeServer {
 		panic(err)
 	}
 	for _, cc := range v["Config"].(map[string]interface{}) {
-		cc.(map[string]interface{})["ClusterBasic"].(map[string]interface{})["ResFlushInterval"] = 0
+		cc.(map[string]interface{})["ClusterBasic"].(map[string]interface{})["ResFlushInterval"] = ms
 	}
 	b, _ = json.Marshal(v)
 	if err := os.WriteFile(p, b, 0o644); err != nil {
@@ -763,6 +769,208 @@ func c27serverFlush0(dir string) *BfeServer {
 		panic(err)
 	}
 	return srv
+}
+
+// ---- family "flushloop": positive response flush interval, all event orders -------------------------
+//
+// With a cluster ResFlushInterval > 0 (server "F"), or the SSE default (1 s) for a request with
+// Accept: text/event-stream on a cluster with interval 0 (server "B", called "S" here),
+// ReverseProxy.copyResponse copies through a bfe_http.MaxLatencyWriter whose FlushLoop goroutine
+// flushes the client response on every tick. The environment events are released one at a time
+// (quiescence in between): the fake clock passes one flush interval, the backend delivers the next
+// body piece, the backend ends the body, the client stops / resumes reading. Every order up to
+// the depth is executed; afterwards the body is ended, the client resumes, two more intervals
+// pass, and the octets the client received go through the same wire-level oracle.
+
+const c27flushMs = 20
+
+type c27stepBody struct {
+	mu   sync.Mutex
+	cond *sync.Cond
+	buf  []byte
+	eof  bool
+}
+
+func newC27stepBody() *c27stepBody { b := &c27stepBody{}; b.cond = sync.NewCond(&b.mu); return b }
+
+func (b *c27stepBody) Read(p []byte) (int, error) {
+	b.mu.Lock()
+	defer b.mu.Unlock()
+	for len(b.buf) == 0 && !b.eof {
+		b.cond.Wait()
+	}
+	if len(b.buf) == 0 {
+		return 0, io.EOF
+	}
+	n := copy(p, b.buf)
+	b.buf = b.buf[n:]
+	return n, nil
+}
+
+func (b *c27stepBody) push(p []byte, eof bool) {
+	b.mu.Lock()
+	b.buf = append(b.buf, p...)
+	if eof {
+		b.eof = true
+	}
+	b.cond.Broadcast()
+	b.mu.Unlock()
+}
+
+type c27flushFam struct {
+	name   string
+	srv    string // "F" (cluster interval) or "S" (SSE default on server B)
+	ver    string
+	frame  string // none | cl | chunked
+	pieces int
+	psize  int
+	depth  int
+}
+
+func c27flushExec(t *testing.T, r *vk.Run, srvs map[string]*BfeServer, f c27flushFam, ch *vk.Chooser) {
+	srv, interval, accept := srvs["F"], time.Duration(c27flushMs)*time.Millisecond, ""
+	if f.srv == "S" {
+		srv, interval, accept = srvs["B"], time.Second, "Accept: text/event-stream\r\n"
+	}
+	c27resetCaches()
+	c27mod = nil
+	full := c27body(f.pieces * f.psize)
+	sb := newC27stepBody()
+	head := "HTTP/1.1 200 OK\r\nX-E2e: v1\r\nSet-Cookie: a=1\r\nSet-Cookie: b=2\r\nEtag: \"x1\"\r\nDate: Mon, 01 Jan 2001 00:00:00 GMT\r\nContent-Type: text/plain\r\n"
+	switch f.frame {
+	case "cl":
+		head += fmt.Sprintf("Content-Length: %d\r\n", len(full))
+	case "chunked":
+		head += "Transfer-Encoding: chunked\r\n"
+	}
+	head += "\r\n"
+	answers := []h1answer{
+		{Resp: func(req *bfe_http.Request) *bfe_http.Response {
+			res, err := bfe_http.ReadResponse(bfe_bufio.NewReader(io.MultiReader(strings.NewReader(head), sb)), req)
+			if err != nil {
+				panic("c27: flush family backend head rejected: " + err.Error())
+			}
+			return res
+		}},
+		{Resp: func(req *bfe_http.Request) *bfe_http.Response {
+			return h1resp(req, 200, map[string]string{"Content-Length": strconv.Itoa(len(c27probeBody)), "Content-Type": "text/plain"}, c27probeBody)
+		}},
+	}
+	c := c27case{Srv: f.srv, Method: "GET", Ver: f.ver, Status: 200, Frame: f.frame, CT: true, Delivery: "whole"}
+	req := c27request(c)
+	req = strings.Replace(req, "Host: example.org\r\n", "Host: example.org\r\n"+accept, 1)
+	var o c27obs
+	var hist []string
+	delivered, ended, stalled, skipped, tickedInStall := 0, false, false, false, false
+	pc := srv.serverStatus.ProxyState.PanicClientConnServe
+	p0 := pc.Get()
+	h1run(t, srv, answers, func(e *h1env) {
+		e.send(req)
+		end := func() {
+			if f.frame == "chunked" {
+				sb.push([]byte("0\r\n\r\n"), true)
+			} else {
+				sb.push(nil, true)
+			}
+			ended = true
+			synctest.Wait()
+		}
+		for d := 0; d < f.depth; d++ {
+			if ended && !stalled {
+				break // the response is complete; nothing left to interleave
+			}
+			evs := []string{"tick", "stall"}
+			if !ended {
+				evs = append(evs, "eof")
+				// While the client is stalled and an interval has passed, the flusher may sit in the
+				// client write holding MaxLatencyWriter.lk; a piece delivered now would park the copy
+				// goroutine on that sync.Mutex, which a synctest bubble cannot treat as quiescent.
+				// The piece is then only deliverable after the client resumed (same serialisation:
+				// lk orders the piece after the running flush either way).
+				if delivered < f.pieces && !(stalled && tickedInStall) {
+					evs = append(evs, "piece")
+				}
+			}
+			i := ch.Choose(len(evs))
+			if ch.Skipped {
+				skipped = true
+				break
+			}
+			hist = append(hist, evs[i])
+			r.Transitions(1)
+			switch evs[i] {
+			case "tick":
+				if stalled {
+					tickedInStall = true
+				}
+				e.sleep(interval)
+			case "stall":
+				stalled = !stalled
+				tickedInStall = false
+				e.setStall(stalled)
+			case "eof":
+				end()
+			case "piece":
+				p := full[delivered*f.psize : (delivered+1)*f.psize]
+				if f.frame == "chunked" {
+					p = []byte(fmt.Sprintf("%x\r\n%s\r\n", len(p), p))
+				}
+				delivered++
+				sb.push(p, f.frame == "cl" && delivered == f.pieces)
+				if f.frame == "cl" && delivered == f.pieces {
+					ended = true
+				}
+				synctest.Wait()
+			}
+		}
+		// epilogue (no choices): end of body, client reads again, two more intervals pass
+		if !ended {
+			end()
+		}
+		if stalled {
+			e.setStall(false)
+		}
+		if !skipped {
+			e.sleep(interval)
+			e.sleep(interval)
+		}
+		o.out1 = e.out()
+		o.closed1 = e.closed()
+		if !o.closed1 && !skipped {
+			o.probed = true
+			e.send("GET /probe HTTP/1.1\r\nHost: example.org\r\n\r\n")
+			e.sleep(interval)
+			all := e.out()
+			o.out2 = all[len(o.out1):]
+			o.closed2 = e.closed()
+		}
+	})
+	if skipped {
+		return
+	}
+	o.panics = pc.Get() - p0
+	id := ch.CaseID(f.name)
+	if !r.Case(id) {
+		return
+	}
+	c.Size = delivered * f.psize
+	exp := c27expect{status: 200, body: full[:delivered*f.psize], complete: true, declCL: -1}
+	if f.frame == "cl" {
+		exp.declCL = len(full)
+		exp.complete = delivered == f.pieces
+	}
+	sig, detail, outcome := c27judge(c, exp, o)
+	if o.panics > 0 {
+		r.Outcome("serve-panic")
+		if sig == "" {
+			sig, detail = "serve-panic:flushloop-"+f.frame, fmt.Sprintf("conn.serve panicked %d time(s); client got %q", o.panics, o.out1)
+		}
+	}
+	r.Outcome("flushloop:" + outcome)
+	r.Nontrivial(id)
+	if sig != "" {
+		r.Violation(sig, id, fmt.Sprintf("family %s events %v (then: end of body, client resumes, 2 intervals): %s", f.name, hist, detail))
+	}
 }
 
 // ---- entry point -----------------------------------------------------------------------------------------
@@ -776,7 +984,8 @@ func TestVerifC27(t *testing.T) {
 	}
 	srvs := map[string]*BfeServer{
 		"A": h1newServer(filepath.Join(dir, "A"), h1defaultSpec()),
-		"B": c27serverFlush0(filepath.Join(dir, "B")),
+		"B": c27serverFlush(filepath.Join(dir, "B"), 0),
+		"F": c27serverFlush(filepath.Join(dir, "F"), c27flushMs),
 		"M": h1newServer(filepath.Join(dir, "M"), h1defaultSpec()),
 	}
 	if err := srvs["M"].CallBacks.AddFilter(bfe_module.HandleFoundProduct, c27moduleFilter); err != nil {
@@ -998,4 +1207,31 @@ func TestVerifC27(t *testing.T) {
 			}
 		}
 	}
+
+	// ---- family flushloop
+	fdepth := r.Pick(5, 7)
+	var fams []c27flushFam
+	for _, fsrv := range []string{"F", "S"} {
+		for _, ver := range []string{"1.1", "1.0k"} {
+			for _, frame := range []string{"none", "cl", "chunked"} {
+				fams = append(fams, c27flushFam{name: "flushloop." + fsrv + "." + ver + "." + frame, srv: fsrv, ver: ver, frame: frame, pieces: 2, psize: 3, depth: fdepth})
+			}
+		}
+	}
+	var fexec int64
+	fcomplete := true
+	for _, f := range fams {
+		f := f
+		fexec += vk.ExploreSharded(r, f.name, 2, -1, func(ch *vk.Chooser) {
+			c27flushExec(t, r, srvs, f, ch)
+		}, func() bool {
+			if stop || r.Expired("flushloop "+f.name) {
+				stop, fcomplete = true, false
+				return true
+			}
+			return false
+		})
+	}
+	r.Traces(fexec)
+	r.Set("flushloop-bounds", fmt.Sprintf("%d families {cluster ResFlushInterval %dms, SSE default 1s} x {1.1, 1.0 keep-alive} x backend {no length, Content-Length, chunked}, 2 body pieces of 3 octets, events {interval passes, next piece, end of body, client stall toggle} in every order up to depth %d, complete=%v", len(fams), c27flushMs, fdepth, fcomplete))
 }
